@@ -468,39 +468,46 @@ pub fn ord_val(o: core::cmp::Ordering) -> Val {
 pub trait ItState {
     fn it_state(&self) -> Val;
 }
-fn its(hr: bool, ab: bool, bytes: Vec<u8>, var: Val) -> Val {
-    c("t", vec![Val::Bool(hr), Val::Bool(ab), b(&bytes), var])
+fn its(hr: bool, ab: bool, bytes: Vec<u8>, var: Val, px: Val) -> Val {
+    c("t", vec![Val::Bool(hr), Val::Bool(ab), b(&bytes), var, px])
 }
 impl ItState for UnixComponents<'_> {
     fn it_state(&self) -> Val {
-        its(self.has_root(), self.is_absolute(), self.as_path::<UnixEncoding>().as_bytes().to_vec(), Val::N)
+        its(self.has_root(), self.is_absolute(), self.as_path::<UnixEncoding>().as_bytes().to_vec(), Val::N, Val::N)
     }
 }
 impl ItState for WindowsComponents<'_> {
     fn it_state(&self) -> Val {
-        its(self.has_root(), self.is_absolute(), self.as_path::<WindowsEncoding>().as_bytes().to_vec(), Val::N)
+        let px = opt(self.prefix(), |x| t2(b(x.as_bytes()), wkind(&x.kind())));
+        // the queries built on prefix() must agree with it
+        let consistent = self.has_prefix() == self.prefix().is_some() && self.prefix_kind() == self.prefix().map(|x| x.kind());
+        let px = if consistent { px } else { c("prefix_queries_disagree", vec![]) };
+        its(self.has_root(), self.is_absolute(), self.as_path::<WindowsEncoding>().as_bytes().to_vec(), Val::N, px)
     }
 }
 impl ItState for Utf8UnixComponents<'_> {
     fn it_state(&self) -> Val {
-        its(self.has_root(), self.is_absolute(), self.as_path::<Utf8UnixEncoding>().as_str().as_bytes().to_vec(), Val::N)
+        its(self.has_root(), self.is_absolute(), self.as_path::<Utf8UnixEncoding>().as_str().as_bytes().to_vec(), Val::N, Val::N)
     }
 }
 impl ItState for Utf8WindowsComponents<'_> {
     fn it_state(&self) -> Val {
-        its(self.has_root(), self.is_absolute(), self.as_path::<Utf8WindowsEncoding>().as_str().as_bytes().to_vec(), Val::N)
+        let px = opt(self.prefix(), |x| t2(b(x.as_str().as_bytes()), w8kind(&x.kind())));
+        let consistent = self.has_prefix() == self.prefix().is_some() && self.prefix_kind() == self.prefix().map(|x| x.kind());
+        let px = if consistent { px } else { c("prefix_queries_disagree", vec![]) };
+        its(self.has_root(), self.is_absolute(), self.as_path::<Utf8WindowsEncoding>().as_str().as_bytes().to_vec(), Val::N, px)
     }
 }
 impl ItState for TypedComponents<'_> {
     fn it_state(&self) -> Val {
         let p = self.to_path();
-        its(self.has_root(), self.is_absolute(), p.as_bytes().to_vec(), p.variant())
+        its(self.has_root(), self.is_absolute(), p.as_bytes().to_vec(), p.variant(), Val::N)
     }
 }
 impl ItState for Utf8TypedComponents<'_> {
     fn it_state(&self) -> Val {
         let p = self.to_path();
-        its(self.has_root(), self.is_absolute(), p.as_str().as_bytes().to_vec(), p.variant())
+        its(self.has_root(), self.is_absolute(), p.as_str().as_bytes().to_vec(), p.variant(), Val::N)
     }
 }
 
@@ -515,6 +522,8 @@ pub trait Api {
     fn comp_valid(p: &[u8]) -> Val;
     fn parent(p: &[u8]) -> Val;
     fn ancestors(p: &[u8]) -> Val;
+    /// variant tags of the paths parent() and ancestors() hand out (runtime-typed families; empty otherwise)
+    fn parent_variants(p: &[u8]) -> Val;
     fn names(p: &[u8]) -> Val;
     fn rel(a: &[u8], b_: &[u8]) -> Val;
     fn eqcmp(a: &[u8], b_: &[u8]) -> Val;
@@ -557,6 +566,7 @@ macro_rules! impl_api {
                         None => Val::N,
                     };
                     steps.push(c("st", vec![opt(cm, |x| x.val()), b(it.ab()), off, it.it_state()]));
+                    it = it.clone(); // every later step runs on a clone of the partially consumed iterator
                 }
                 Val::L(steps)
             }
@@ -568,6 +578,7 @@ macro_rules! impl_api {
                 for d in sched {
                     let cm = if *d { it.next_back() } else { it.next() };
                     steps.push(t2(opt(cm, |x| b(x.ab())), b(it.ab())));
+                    it = it.clone();
                 }
                 Val::L(steps)
             }
@@ -603,6 +614,21 @@ macro_rules! impl_api {
                     v.push(b(a.ab()));
                 }
                 Val::L(v)
+            }
+            fn parent_variants(p: &[u8]) -> Val {
+                let $pb = p;
+                let path = $mk;
+                let mut v = Vec::new();
+                if let Some(x) = path.parent() {
+                    v.push(x.variant());
+                }
+                for (i, a) in path.ancestors().enumerate() {
+                    if i > p.len() + 3 {
+                        break;
+                    }
+                    v.push(a.variant());
+                }
+                Val::L(v.into_iter().filter(|x| !matches!(x, Val::N)).collect())
             }
             fn names(p: &[u8]) -> Val {
                 let $pb = p;
